@@ -114,7 +114,13 @@ def check_case(case):
         if op == 'get-slice':
             out = attempt(lambda: c['X', sl])
         else:
-            out = attempt(lambda: c.__setitem__(('X', sl), -7.0))
+            new_values = -7.0
+            if case.get('vals') and want_pos != 'absent':
+                # one value per addressed period, as a list / tuple / array (rather than one scalar for all of them)
+                new_values = [-7.0 - i for i in range(len(want_pos))]
+                new_values = {'list': list, 'tuple': tuple, 'array': np.array}[case['vals']](new_values)
+                res.tag('slice-write:' + case['vals'])
+            out = attempt(lambda: c.__setitem__(('X', sl), new_values))
         if n == 0 and (a is None or b is None):
             # open ends on an empty span: nothing to address; any of KeyError / IndexError / empty result is acceptable
             return res
@@ -136,9 +142,11 @@ def check_case(case):
                          f'{np.asarray(out.value).tolist()}, positions by the statement {want_pos}')
         else:
             want = np.arange(float(n))
-            want[want_pos] = -7.0
+            want[want_pos] = new_values
+            if case.get('vals'):
+                cls += '/sequence'
             if not same_array(c.X, want):
-                res.fail(f'set-slice/wrong-positions/{where}/{cls}', f'span {labs!r}: obj[X, {a!r}:{b!r}:{s}] = -7 gave '
+                res.fail(f'set-slice/wrong-positions/{where}/{cls}', f'span {labs!r}: obj[X, {a!r}:{b!r}:{s}] = {new_values!r} gave '
                          f'{c.X.tolist()}, expected {want.tolist()}')
         return res
 
@@ -193,6 +201,7 @@ def gen_all(max_len):
     def gen():
         i = 0
         nrep = 0
+        nseq = 0
         for desc in spans.catalogue(max_len):
             labs = spans.labels(desc)
             kind = 'model' if i % 4 == 3 else 'container'
@@ -211,6 +220,8 @@ def gen_all(max_len):
                     for s in (None, 1, 2, 3):
                         for op in ('get-slice', 'set-slice'):
                             yield {'span': desc, 'kind': kind, 'op': op, 'a': a, 'b': b, 's': s}
+                        nseq += 1
+                        yield {'span': desc, 'kind': kind, 'op': 'set-slice', 'a': a, 'b': b, 's': s, 'vals': ('list', 'array', 'tuple')[nseq % 3]}
                         if s in (2, 3) and (a is not None or b is not None):
                             nrep += 1
                             yield {'span': desc, 'kind': kind, 'op': ('get-slice', 'set-slice')[nrep % 2], 'a': a, 'b': b, 's': s,
@@ -238,6 +249,7 @@ def gen_long():
                     for s_ in (None, 2, 5):
                         for op in ('get-slice', 'set-slice'):
                             yield {'span': desc, 'op': op, 'a': a, 'b': b, 's': s_}
+                        yield {'span': desc, 'op': 'set-slice', 'a': a, 'b': b, 's': s_, 'vals': 'list'}
     return gen
 
 
